@@ -44,7 +44,6 @@ package webhook
 //@   loop 2 invariant forall k int :: 0 <= k && k <= rangeindex && networks.PodNetworks[k].AllocationType.Type == "Fixed" ==> c18fixedname
 //@   loop 2 invariant forall k int :: 0 <= k && k <= rangeindex ==> networks.PodNetworks[k].Interface in iF
 //@   loop 2 invariant forall a int, b int :: 0 <= a && a < b && b <= rangeindex ==> networks.PodNetworks[a].Interface != networks.PodNetworks[b].Interface
-//@   loop 2 invariant forall s string :: s in iF ==> exists k int :: 0 <= k && k <= rangeindex && networks.PodNetworks[k].Interface == s
 //@   # filling in cluster defaults keeps names, allocation types and the security-group bound
 //@   loop 3 invariant forall k int :: 0 <= k && k < len(networks.PodNetworks) ==> netOK(networks.PodNetworks[k])
 //@   loop 3 invariant forall a int, b int :: 0 <= a && a < b && b < len(networks.PodNetworks) ==> networks.PodNetworks[a].Interface != networks.PodNetworks[b].Interface
